@@ -25,6 +25,9 @@ CLAIMED = {
  "C07": ("PC", "deterministic simulation of the real h1::Payload channel: seeded search over interleavings of single feeder/reader operations with counting wakers, checked operation by operation against a byte-queue reference model",
          "Seeded exploration: sequences of up to 14 single operations (feed_data with sizes straddling 32 KiB, feed_eof, set_error, sender drop, need_read, reader poll, unread_data, reader drop) in every interleaving the generator draws, against a reference model (byte queue + eof/err/sender-gone). Exact bytes, truthful ending (error before clean end, never a clean end for a cut-short body), reader wake-up on every event after a Pending poll, feeder wake-up once drained below the limit. Sampling (≈3M sequences per quick run), not proof.",
          "The reader stops polling once it has observed an end; when exactly Pause is reported is C05's subject.", "§4 C07"),
+ "C14": ("WS", "deterministic simulation of the real ws::Codec in both roles fed under simulator-chosen read segmentation; seeded search over frame sequences (legal and each illegal class), sizes at the encoding boundaries, max_size values and cuts; independent RFC 6455 model and SHA-1",
+         "Seeded exploration: frame sequences written by an independent RFC 6455 serializer (all opcodes, lengths at 125/126/65535/65536, masks, legal fragmentation and every illegal class: wrong masking for the role, reserved opcode, fragmented or over-long control frame, continuation without start, data frame inside a fragmented message, announced length above max_size up to 2^64-1) fed to the real decoder under cuts inside headers, masks and payloads; the decoded sequence must equal the reference state machine's for every segmentation, an oversized frame must be refused as soon as its header is complete, no delivered frame exceeds max_size; messages encoded by one role must decode at the other to the same messages and be well-formed for the independent parser; upgrade requests parsed by the real HTTP/1 decoder under segmentation are accepted iff well-formed, with the accept key checked against an independent SHA-1/base64. Sampling, not proof.",
+         "The byte feeder reproduces Framed's read loop (append, decode until None); RSV bits always 0; an over-long Close may be answered by an error or a bare Close; behaviour after a Close frame is not judged.", "§4 C14"),
  "C15": ("MP", "deterministic simulation of the real multipart parser over a scripted body stream: seeded search over field lists x boundaries x chunkings with Pending between chunks x truncation points x stream errors x consumer behaviour, under a wake-driven executor with quiescence detection; ground truth from an independent RFC 2046 producer",
          "Seeded exploration: bodies built from 0–4 fields (empty, text, binary with CR/LF/dashes, contents ending in CR/CRLF/--, boundary look-alikes) by an independent producer, legal random boundaries of length 1–70, preamble/epilogue, chunkings down to single bytes with Pending between chunks, truncation at arbitrary offsets and inside delimiters, malformed delimiters/headers, stream errors, consumers that drop a field early, buffer limits from 300 B to 1 MB. Delivered fields must equal ground truth for every chunking; truncated/malformed bodies must end in an error (the consumer task is polled only when woken: a parked consumer with no wake-up pending is a hang); no clean end with cut or merged fields; the parser never pulls more input while holding more than its limit plus a chunk. Sampling, not proof.",
          "Bodies cut after the complete close delimiter may be accepted or refused; a malformed first delimiter line is preamble for a conforming parser.", "§4 C15"),
